@@ -193,6 +193,7 @@ func RunCase(line string) (impl, fail, sig string, err error) {
 
 type stats struct {
 	seqs, inDomain, changed, known int
+	knownReported                  map[string]int
 }
 
 // add runs one case (a lookup list with a batch of sequences) and records it.
@@ -208,6 +209,17 @@ func add(run *vlib.Run, st *stats, c *Case, labels ...string) {
 	}
 	idx := run.Add(line, r.impl, r.changed > 0, labels...)
 	for _, f := range r.fails {
+		if f.sig == divMarkMark || f.sig == divGsub8 {
+			// open findings: a few witnesses per run are enough (the failure
+			// list is capped, new failures must not be crowded out)
+			if st.knownReported == nil {
+				st.knownReported = map[string]int{}
+			}
+			st.knownReported[f.sig]++
+			if st.knownReported[f.sig] > 5 {
+				continue
+			}
+		}
 		// report the single failing sequence as its own (replayable) case
 		single := &Case{Gdef: c.Gdef, LL: c.LL, Order: c.Order, Seqs: [][]Glyph{f.seq}}
 		run.Fail(idx, single.Line(), f.detail, f.sig)
@@ -271,4 +283,5 @@ func Gen(run *vlib.Run, seed uint64, tier string) {
 	run.Extra["sequences_in_domain"] = st.inDomain
 	run.Extra["sequences_changed_by_lookups"] = st.changed
 	run.Extra["sequences_in_known_divergence_classes"] = st.known
+	run.Extra["known_divergences_observed"] = st.knownReported
 }
